@@ -5,6 +5,7 @@ import (
 	"errors"
 	"fmt"
 	"testing"
+	"time"
 
 	"github.com/aldas/go-modbus-client/packet"
 	"github.com/aldas/go-modbus-client/server"
@@ -15,6 +16,8 @@ import (
 	"verif/internal/harness"
 	"verif/internal/hostile"
 	"verif/internal/spec"
+	"verif/internal/srv"
+	"verif/internal/xport"
 )
 
 func TestMain(m *testing.M) { harness.Main(m) }
@@ -516,3 +519,72 @@ func TestAssemblerJoin(t *testing.T) {
 		chkJoin.Eval(t, joinCase{N: 140000, PerRead: 2, Seed: harness.Seed()})
 	}
 }
+
+// twoConnCase: the same through a real Server and TWO connections used alternately: connection A sends the first Head bytes of its
+// request, connection B a whole request (and gets its reply), A the rest (and gets its reply), for Rounds rounds.
+type twoConnCase struct {
+	Rounds int    `json:"rounds"`
+	Head   int    `json:"head"`
+	Seed   uint64 `json:"seed"`
+}
+
+func runTwoConn(c twoConnCase) harness.Result {
+	l := xport.NewPipeListener()
+	s := &server.Server{ReadTimeout: 20 * time.Millisecond, WriteTimeout: 2 * time.Second, OnErrorFunc: func(error) {}}
+	ctx, cancel := context.WithCancel(context.Background())
+	done := make(chan struct{})
+	go func() { defer close(done); _ = s.Serve(ctx, l, echoHandler{}) }()
+	defer func() { cancel(); _ = l.Close(); <-done }()
+	ca, err := l.Dial()
+	if err != nil {
+		return harness.Fail("harness: %v", err)
+	}
+	defer ca.Close()
+	cb, err := l.Dial()
+	if err != nil {
+		return harness.Fail("harness: %v", err)
+	}
+	defer cb.Close()
+	colA, colB := srv.Collect(ca), srv.Collect(cb)
+	gotA, gotB := 0, 0
+	sd := c.Seed
+	for i := 0; i < c.Rounds; i++ {
+		v := harness.SplitMix64(&sd)
+		ra := spec.Req{FC: 16, Unit: uint8(v), Tx: uint16(2 * i), Addr: uint16(v >> 8), Qty: 3, ByteCount: 6, Payload: []byte{1, 2, 3, 4, 5, byte(i)}}
+		rb := spec.Req{FC: 3, Unit: uint8(v >> 24), Tx: uint16(2*i + 1), Addr: uint16(v >> 32), Qty: 1 + uint16(v>>48)%9}
+		fa, fb := spec.EncodeRequest(spec.TCP, ra), spec.EncodeRequest(spec.TCP, rb)
+		wantA := []byte{fa[0], fa[1], 0, 0, 0, 3, fa[6], fa[7], byte(len(fa))}
+		wantB := []byte{fb[0], fb[1], 0, 0, 0, 3, fb[6], fb[7], byte(len(fb))}
+		head := c.Head
+		if head >= len(fa) {
+			head = len(fa) - 1
+		}
+		_ = ca.SetWriteDeadline(time.Now().Add(5 * time.Second))
+		_ = cb.SetWriteDeadline(time.Now().Add(5 * time.Second))
+		if _, err := ca.Write(fa[:head]); err != nil {
+			return harness.Fail("round %d: connection A: write failed: %v", i, err)
+		}
+		if _, err := cb.Write(fb); err != nil {
+			return harness.Fail("round %d: connection B: write failed: %v", i, err)
+		}
+		if all := colB.WaitLen(gotB+9, 10*time.Second); len(all) < gotB+9 || string(all[gotB:gotB+9]) != string(wantB) {
+			return harness.Fail("round %d: connection B sent the whole request %x while connection A had %d bytes of a request pending: received %x, the handler's reply to it is %x", i, fb, head, all[gotB:], wantB)
+		}
+		gotB += 9
+		if _, err := ca.Write(fa[head:]); err != nil {
+			return harness.Fail("round %d: connection A: write failed: %v", i, err)
+		}
+		if all := colA.WaitLen(gotA+9, 10*time.Second); len(all) < gotA+9 || string(all[gotA:gotA+9]) != string(wantA) {
+			return harness.Fail("round %d: connection A completed its request %x (first %d bytes sent before connection B was served): received %x, the handler's reply to it is %x", i, fa, head, all[gotA:], wantA)
+		}
+		gotA += 9
+	}
+	return harness.Result{NonTrivial: c.Rounds >= 2, Labels: []string{"two-connections-alternately", fmt.Sprintf("head:%d", min(c.Head, 12))}, Weight: int64(2 * c.Rounds)}
+}
+
+var chkTwoConn = harness.Define("server-joins-classifier-and-dispatcher-two-connections",
+	func(t *rapid.T) twoConnCase {
+		return twoConnCase{Rounds: rapid.IntRange(1, 12).Draw(t, "rounds"), Head: rapid.IntRange(1, 18).Draw(t, "head"), Seed: rapid.Uint64().Draw(t, "seed")}
+	}, runTwoConn)
+
+func TestTwoConnections(t *testing.T) { chkTwoConn.Rapid(t, harness.Pick(25, 600)) }
